@@ -73,6 +73,10 @@ def _output_ports(routine: RoutineV1) -> Iterable[PortV1]:
     return [port for port in routine.ports if port.direction == "output"]
 
 
+def _through_ports(routine: RoutineV1) -> Iterable[PortV1]:
+    return [port for port in routine.ports if port.direction == "through"]
+
+
 def _format_object_header(routine: RoutineV1) -> str:
     """Formats the standard object repr as a header."""
     cls = type(routine)
@@ -103,6 +107,10 @@ def _format_input_port_sizes(ports: Iterable[PortV1]) -> str:
 
 def _format_output_port_sizes(ports: Iterable[PortV1]) -> str:
     return _format_port_sizes(ports, "Output")
+
+
+def _format_through_port_sizes(ports: Iterable[PortV1]) -> str:
+    return _format_port_sizes(ports, "Through")
 
 
 def _format_port_sizes(ports: Iterable[PortV1], label: str) -> str:
@@ -143,6 +151,7 @@ SECTIONS = [
     (attrgetter("linked_params"), _format_linked_params),
     (_input_ports, _format_input_port_sizes),
     (_output_ports, _format_output_port_sizes),
+    (_through_ports, _format_through_port_sizes),
     (attrgetter("local_variables"), _format_local_variables),
     (attrgetter("repetition"), _format_repetition),
 ]
